@@ -62,3 +62,22 @@ CASES += [
     {"name": "line-shape functions passed donor first", "kind": "twin", "edits": [
         ("quantarhei/qm/liouvillespace/rates/foersterrates.py", "_fintegral(tt, gt[a,:], gt[b,:],", "_fintegral(tt, gt[b,:], gt[a,:],", 1)]},
 ]
+
+FR = "quantarhei/qm/liouvillespace/rates/foersterrates.py"
+TR = "quantarhei/qm/liouvillespace/rates/tdredfieldrates.py"
+CASES += [
+    m("Redfield rates calculated in the caller's units (the repaired defect)", "C06-R8", R,
+      "            with energy_units(\"int\"):\n                self._set_rates()", "            if True:\n                self._set_rates()"),
+    m("Foerster rates take the reorganisation energies in the caller's units (the repaired defect)", "C06-R8", FR,
+      "        with energy_units(\"int\"):\n            for ii in range(1, Na):\n                ll[ii] = sbi.CC.get_reorganization_energy(ii-1,ii-1)",
+      "        if True:\n            for ii in range(1, Na):\n                ll[ii] = sbi.CC.get_reorganization_energy(ii-1,ii-1)"),
+    m("time-dependent Redfield rates diagonalise the Hamiltonian in the caller's units (the repaired defect)", "C06-R8", TR,
+      "            with energy_units(\"int\"):\n                self._set_rates(ham,sbi)", "            if True:\n                self._set_rates(ham,sbi)"),
+    m("Redfield rates diagonalise the units-managed data instead of the stored matrix", "C06-R8", R,
+      "            self._set_rates()          \n", "            self._set_rates()          \n            self.hD = numpy.linalg.eigvalsh(self.ham.data)\n"),
+    t("Foerster rates read everything in one internal-units block", FR,
+      "        with energy_units(\"int\"):\n            HH = self.ham.data\n", "        with energy_units(\"int\"):\n            HH = self.ham.data\n            nothing = None\n"),
+    {"name": "rate calculation reached through a second private helper, protected at the outer call", "kind": "twin", "edits": [
+        (R, "            with energy_units(\"int\"):\n                self._set_rates()", "            with energy_units(\"int\"):\n                self._boot()", 1),
+        (R, "    def _set_rates(self):", "    def _boot(self):\n        self._set_rates()\n\n    def _set_rates(self):", 1)]},
+]
